@@ -15,7 +15,7 @@ def c02_jobs(tier):
             job('block3-plain-t1', 'c02b3', 'plain', threads=1, shards=4 if q else 8, args=['--stride=2'] if q else [], timeout=3600 if q else 7200)]
 PROPS['C02'] = dict(
     level='exploration', jobs=c02_jobs,
-    rule='cycle: (matrix rep) x 4 coarsenings x 9 relaxations with random npre/npost 1-3, ncycle 1-2, pre_cycles 1-2, coarse_enough, max_levels, direct_coarse (component parameters randomised from the second matrix on); spd: (matrix rep) x 4 coarsenings x 7 symmetric smoothers x {V,W}, npre = npost; scaling: (matrix rep) x 4 coarsenings x 8 relaxations (ILUT excluded) x 5 exponents (even, odd, 2^-60..2^-120 = all coefficients below machine epsilon, 2^60..2^120); spd matrices are additionally rescaled by 2^k, k in {0, +-30, -60, 70, -100} (same problem in other units). The block jobs repeat cycle and scaling on builtin<static_matrix<double,b,b>>, b = 2, 3, with Kronecker matrices A (x) C (C SPD or identity; 3 coarsenings x 8 relaxations: Ruge-Stuben and SPAI-1 are not offered for block values). Matrices: G1 grid diffusion (2D 5/9-point, 3D, anisotropy to 1e-3, contrast to 1e3) and connected G2 graph Laplacians, 40 <= n <= 300, each validated in the harness to be a symmetric irreducibly diagonally dominant M-matrix. A case is non-trivial when the hierarchy has at least two levels; distinct = distinct (sub-check, descriptor) hash.',
+    rule='cycle: (matrix rep) x 4 coarsenings x 9 relaxations with random npre/npost 1-3, ncycle 1-2, pre_cycles 1-2, coarse_enough, max_levels, direct_coarse (component parameters randomised from the second matrix on); spd: (matrix rep) x 4 coarsenings x 7 symmetric smoothers x {V,W}, npre = npost; scaling: (matrix rep) x 4 coarsenings x 8 relaxations (ILUT excluded) x 5 exponents (even, odd, 2^-60..2^-120 = all coefficients below machine epsilon, 2^60..2^120); spd matrices are additionally rescaled by 2^k, k in {0, +-30, -60, 70, -100} (same problem in other units). The block jobs repeat cycle and scaling on builtin<static_matrix<double,b,b>>, b = 2, 3, with Kronecker matrices A (x) C (C SPD or identity; 3 coarsenings x 8 relaxations: Ruge-Stuben and SPAI-1 are not offered for block values), and run spd on block vector Laplacians with NON-commuting SPD edge blocks and an optional stiff one-direction reaction term (anisotropic diagonal blocks), SPD-ness validated by a Cholesky factorisation: {aggregation, smoothed_aggregation} x 7 symmetric smoothers x {V,W}, Chebyshev with scale=true forced on every other matrix. Domain of the block spd assertions: symmetry for all seven smoothers; positivity / contraction / the variational bound only for damped Jacobi, SPAI-0, Gauss-Seidel and Chebyshev (Gershgorin), whose A-norm contraction follows from A <= 2 blockdiag(A); block ILU(0)/ILU(k)/ILUP are symmetric but need not define a convergent splitting on non-M matrices (spectrum recorded only); smoothed_aggr_emin is left out for block values because it builds R independently of P and R = P^T needs commuting blocks (observed asymmetry 5e-4 on the unchanged tree). Matrices: G1 grid diffusion (2D 5/9-point, 3D, anisotropy to 1e-3, contrast to 1e3) and connected G2 graph Laplacians, 40 <= n <= 300, each validated in the harness to be a symmetric irreducibly diagonally dominant M-matrix. A case is non-trivial when the hierarchy has at least two levels; distinct = distinct (sub-check, descriptor) hash.',
     exhaustive_note='the 36 coarsening x relaxation cells (cycle), the 28 x {V,W} cells (spd) and the 32 cells (scaling) are enumerated completely; everything else is sampled',
     min_nontrivial=dict(quick=300, thorough=4500),
     require_obs=dict(quick=['cells_cycle', 'cells_spd', 'cells_scaling'], thorough=['cells_cycle', 'cells_spd', 'cells_scaling']),
